@@ -74,17 +74,18 @@ type TableCell struct {
 
 // ToMarkdown converts the table to markdown format.
 func (t *ParsedTable) ToMarkdown() string {
-	if len(t.Rows) == 0 {
+	grid := t.grid()
+	if len(grid) == 0 {
 		return ""
 	}
 
 	var result string
 
 	// First row (header or first data row)
-	firstRow := t.Rows[0]
+	firstRow := grid[0]
 	result += "|"
-	for _, cell := range firstRow {
-		result += " " + escapeMarkdown(cell.Text) + " |"
+	for _, text := range firstRow {
+		result += " " + escapeMarkdown(text) + " |"
 	}
 	result += "\n"
 
@@ -96,15 +97,53 @@ func (t *ParsedTable) ToMarkdown() string {
 	result += "\n"
 
 	// Data rows (the first row was emitted above the separator, with or without header cells)
-	for i := 1; i < len(t.Rows); i++ {
+	for i := 1; i < len(grid); i++ {
 		result += "|"
-		for _, cell := range t.Rows[i] {
-			result += " " + escapeMarkdown(cell.Text) + " |"
+		for _, text := range grid[i] {
+			result += " " + escapeMarkdown(text) + " |"
 		}
 		result += "\n"
 	}
 
 	return result
+}
+
+// grid lays the cells out on a rectangular grid. Markdown has no merged cells: a cell with
+// rowspan/colspan shows its text at its top-left position, the positions it covers stay empty.
+func (t *ParsedTable) grid() [][]string {
+	covered := make(map[[2]int]bool) // positions taken by a rowspan from a row above
+	grid := make([][]string, 0, len(t.Rows))
+	width := 0
+	for i, row := range t.Rows {
+		var line []string
+		for _, cell := range row {
+			for covered[[2]int{i, len(line)}] {
+				line = append(line, "")
+			}
+			line = append(line, cell.Text)
+			for dc := 0; dc < cell.ColSpan || dc < 1; dc++ {
+				if dc > 0 {
+					line = append(line, "")
+				}
+				for dr := 1; dr < cell.RowSpan; dr++ {
+					covered[[2]int{i + dr, len(line) - 1}] = true
+				}
+			}
+		}
+		for covered[[2]int{i, len(line)}] {
+			line = append(line, "")
+		}
+		if len(line) > width {
+			width = len(line)
+		}
+		grid = append(grid, line)
+	}
+	for i := range grid {
+		for len(grid[i]) < width {
+			grid[i] = append(grid[i], "")
+		}
+	}
+	return grid
 }
 
 // escapeMarkdown escapes special markdown characters in text.
